@@ -60,7 +60,7 @@ class ScanOb(Obligation):
             for blk in fn.blocks.values():
                 for st_ in blk.stmts:
                     txt = repr(st_)
-                    if 'thread_local' in txt or re.search(r"const \{alloc\d+: &(mut )?", txt) and 'static' in txt: suspects.append('%s: %s' % (f, txt[:100]))
+                    if 'thread_local' in txt or '/*tls*/' in txt or '__RUST_STD_INTERNAL' in txt or (re.search(r"const \{alloc\d+: &(mut )?", txt) and 'static' in txt): suspects.append('%s: %s' % (f, txt[:100]))
         # 3. callees with global effects
         for c in sorted(callees):
             if re.search(IMPURE_CALLEES, c): suspects.append('callee ' + c[:120])
@@ -81,9 +81,9 @@ class ScanOb(Obligation):
         return res
 
 
-HIST = [('f64', ['1+2*@', '@^2', 'sin(@)+1', '2(3)!', '1/0', '1+', 'max(@,2)']), ('i64', ['1+2*@', '@%7', 'gcd(@,12)', '1/0', '(', 'min(@,3)']),
+HIST = [('f64', ['1+2*@', '@^2', '1/@', '@', 'sin(@)+1', '2(3)!', '1/0', '1+', 'max(@,2)']), ('i64', ['1+2*@', '@%7', 'gcd(@,12)', '1/0', '(', 'min(@,3)', '@!', '21!', '22!', '20!', '5!']),
         ('number', ['1+2*@', '@/2', 'round(@)', '1.5+@', '2^@']), ('decimal', ['1+2*@', '@/3', '0.1+0.2']), ('complex', ['@*i', 'i*i', 'sqrt(@)'])]
-PHS = {'f64': ['x4000000000000000', 'x4008000000000000', 'x7ff8000000000000'], 'i64': ['2', '3', '-7'], 'number': ['I2', 'I3', 'Fx4004000000000000'], 'decimal': ['d2', 'd3', 'd0.5'],
+PHS = {'f64': ['x4000000000000000', 'x4008000000000000', 'x7ff8000000000000', 'x0000000000000000', 'x8000000000000000'], 'i64': ['2', '3', '-7', '21', '30'], 'number': ['I2', 'I3', 'Fx4004000000000000'], 'decimal': ['d2', 'd3', 'd0.5'],
        'complex': ['cx4000000000000000,x0000000000000000', 'cx0000000000000000,x3ff0000000000000']}
 
 
